@@ -99,7 +99,8 @@ P = histprop.HistProp(
                  "RwLock poisoning is excluded (needs an earlier panic)"])
 generate, corpus, known = P.generate, P.corpus, P.known
 ASSUMPTIONS, BUILDS = P.ASSUMPTIONS, P.BUILDS
-RULE = P.RULE + ("; EmbeddedFS: every observer and mutator on every path of the C18 universe (near misses and backslash "
+RULE = P.RULE + ("; EmbeddedFS under the adapters (lower layer of two- and three-layer overlays, below an altroot): appends that copy "
+                 "embedded files up, setters, removals, walks and copies; EmbeddedFS itself: every observer and mutator on every path of the C18 universe (near misses and backslash "
                  "aliases of embedded paths included) and read-handle scripts, debug and release; the ASYNC API: the same cases through the async port on a current-thread tokio runtime and under "
                  "futures::executor::block_on, i.e. with NO tokio runtime entered (code that reaches for one must degrade to "
                  "an error): any panic is a violation")
@@ -152,6 +153,35 @@ def embedded_panics(tier):
     import random
     from props import c18
     cases = c18.gen_cases(random.Random(13), "quick")
+    # an EmbeddedFS UNDER the adapters: as the lower layer of an overlay (copy-up of embedded files, whose metadata has no
+    # access time), below an altroot, and both
+    files = [r for r, _ in c18.fixture_files()]
+    for shape in ("ovl", "alt_ovl", "ovl3"):
+        c = vfx.Case("c13_emb_%s" % shape)
+        for rel, data in c18.fixture_files():
+            c.embfile(rel, data)
+        c.base("emb"); c.base("mem"); c.base("mem")
+        e = c.fs("base", 0); m = c.fs("base", 1); m2 = c.fs("base", 2)
+        if shape == "ovl":
+            t = c.fs("ovl", 2, m, "-", e, "-")
+        elif shape == "ovl3":
+            t = c.fs("ovl", 3, m, "-", m2, "-", e, "-")
+        else:
+            a = c.fs("alt", e, vfx.hexs("/a"))
+            t = c.fs("ovl", 2, m, "-", a, "-")
+        names = [f for f in files if shape != "alt_ovl" or f.startswith("a/")]
+        names = [f[2:] if shape == "alt_ovl" else f for f in names][:6]
+        for f in names:
+            h = c.op("appendfile", vfx.ps(t, f)); c.op("hwrite", h, vfx.hexs(b"+")); c.op("hdrop", h)
+            c.op("readtostring", vfx.ps(t, f)); c.op("metadata", vfx.ps(t, f))
+            h = c.op("appendfile", vfx.ps(t, f)); c.op("hdrop", h)
+            c.op("setmtime", vfx.ps(t, f), 12345); c.op("setatime", vfx.ps(t, f), 12345)
+        d = names[0].rsplit("/", 1)[0] if "/" in names[0] else ""
+        for k in ("readdir", "walkdir", "probe"):
+            c.op(k, "%d:" % t)
+        c.op("removefile", vfx.ps(t, names[-1])); c.op("createdirall", vfx.ps(t, "new/dir")); c.op("copydir", vfx.ps(t, "new"), vfx.ps(t, "new2"))
+        c.op("removedirall", vfx.ps(t, names[1].split("/")[0])); c.op("walkdir", "%d:" % t); c.op("snap", t)
+        cases.append(c)
     by = {c.name: c for c in cases}
     text = "".join(c.text() for c in cases)
     out, n = [], 0
